@@ -69,11 +69,21 @@ def scan_eff(eff, text, bad=None, holes=None):
         elif c == ",":
             if bad is None and stack and stack[-1] == "(" and last in (",", "("):
                 bad = "`%s,` inside parentheses: an empty argument (writing `%s`)" % (last, text[:40])
+            if bad is None and stack and stack[-1] == "{" and last in (",", "{"):
+                bad = "`%s,` inside braces: an empty member of an object literal (writing `%s`)" % (last, text[:40])
             if holes is not None and stack and stack[-1] == "[" and last in (",", "["):
                 holes.append("`%s,` inside an array literal: an empty element (writing `%s`)" % (last, text[:40]))
             last = ","
         elif not c.isspace():
-            last = "x"
+            if (c.isalnum() or c in "_$") and c.isascii():
+                # a word character written directly after a word character of the previous literal write: two tokens fuse
+                if i == 0 and last == "w" and bad is None:
+                    bad = "`%s` is written directly after a word of the previous fragment: the two tokens fuse (e.g. `elseif`)" % text[:20]
+                last = "w"
+            else:
+                last = "x"
+        else:
+            last = "x" if last == "w" else last
         i += 1
     return (under, stack, quote, last), bad
 
@@ -96,7 +106,7 @@ def inline(st, target, eff, mark=True):
     if cur[2]:
         return st  # pasted inside a quoted string: brackets do not count
     e, bad = scan_eff(cur, eff[0], st.bad)
-    e = (e[0], e[1] + eff[1], eff[2], eff[3] or "x")  # a pasted buffer counts as some text
+    e = (e[0], e[1] + eff[1], eff[2], (eff[3] if eff[3] != "w" else "x") or "x")  # a pasted buffer counts as some text
     s = st.copy(bad=bad)
     s.bufs[target] = e
     if target != "$w" and mark:
@@ -461,14 +471,22 @@ class Analyzer:
                 R[st] += r0[st]
             ck = "match:" + sir.expr_str(n["e"])
             track = ck in env["conds"]
+            def arm_id(a_):
+                # two matches on the same scrutinee are correlated by the variants their arms name, not by how the
+                # payload is bound (`Static(_)` in one match, `Static(v)` in the other)
+                vs_ = sir.pat_variants(a_["pat"])
+                return "|".join(sorted(vs_)) if vs_ else sir.pat_str(a_["pat"])
+            arm_ids = [arm_id(a_) for a_ in n["arms"]]
             for a in n["arms"]:
                 ins = []
-                pat = sir.pat_str(a["pat"])
+                pat = arm_id(a)
                 for s in r0["normal"]:
                     m = dict(s.memo)
-                    if track and ck in m:
+                    if track and ck in m and m[ck] in arm_ids:
                         if m[ck] == pat:
                             ins.append(s)
+                    elif track and ck in m:
+                        ins.append(s)      # the remembered arm has no counterpart here: every arm is possible
                     elif track:
                         ins.append(s.copy(memo=tuple(sorted(list(s.memo) + [(ck, pat)]))))
                     else:
@@ -515,8 +533,31 @@ class Analyzer:
                 if not idx_keys:
                     return s
                 return s.copy(memo=tuple(sorted([(c, v) for c, v in s.memo if c not in idx_keys] + [(kk, val) for kk in idx_keys])))
+            def unword(s):
+                # token fusion is only judged inside one iteration: which iteration follows which is not known well enough
+                if not any(v[3] == "w" for v in s.bufs.values()):
+                    return s
+                s2 = s.copy()
+                for b_, v in list(s2.bufs.items()):
+                    if v[3] == "w":
+                        s2.bufs[b_] = (v[0], v[1], v[2], "x")
+                return s2
             seen = {}
-            frontier = [with_idx(strip(s), False) for s in cur]
+            frontier = [with_idx(strip(unword(s)), False) for s in cur]
+            after_states = []
+            # `for x in TABLE.iter()` over a constant array with at least one element runs at least once
+            at_least_once = False
+            if k == "for":
+                root = n["e"]
+                while root.get("k") == "mcall" and root["m"] in ("iter", "into_iter", "enumerate", "rev", "cloned", "copied"):
+                    root = root["recv"]
+                root = sir.strip_ref(root)
+                if root.get("k") == "path":
+                    c_ = self.index.const(root["segs"][-1]) if hasattr(self.index, "const") else None
+                    arr = (c_ or {}).get("e") or {}
+                    if arr.get("k") == "ref":
+                        arr = arr["e"]
+                    at_least_once = arr.get("k") == "array" and len(arr.get("elems", [])) >= 1
             exits = []
             rounds = 0
             unstable = False
@@ -537,8 +578,16 @@ class Analyzer:
                     break
                 rb = self.walk(n["body"], new, env, probs)
                 exits += rb["break"]
-                frontier = [with_idx(strip(s), True) for s in rb["normal"] + rb["continue"]]
-            R["normal"] = list(seen.values()) + exits
+                frontier = [with_idx(strip(unword(s)), True) for s in rb["normal"] + rb["continue"]]
+                after_states += frontier
+            if at_least_once:
+                dd_ = {}
+                for s in after_states:
+                    dd_[s.key()] = s
+                done = list(dd_.values())
+            else:
+                done = list(seen.values())
+            R["normal"] = [unword(s) for s in done + exits]
             return self._dd(R)
         if k == "return":
             cur = states
